@@ -383,7 +383,7 @@ def rule_noise_order(ctx: Ctx) -> None:
                 raise AnalysisError(f"{q}: source of the wrapper's gate-type list not recognised: {short(src)}")
         # the helper keeps its input order
         h = repo.anchor(rel, q.rsplit(".", 1)[0] + "._find_wrapped_noise")
-        accs = [x for v in ("noise_list", "noise_objects") for x in order.loop_accumulations(h, v)]
+        accs = [x for v in _returned_names(h) for x in order.loop_accumulations(h, v)]
         if accs and all(dd * s == 1 for _, _, dd, s in accs):
             ctx.ok("order.wrapper", m, h, what="_find_wrapped_noise preserves order")
         else:
@@ -391,7 +391,7 @@ def rule_noise_order(ctx: Ctx) -> None:
                      func=qualname(h), construct=f"{qualname(h)}: order")
     sm = repo.module(SB)
     w = repo.anchor(SB, "SolverBase._wrap_noise")
-    accs = order.loop_accumulations(w, "noise")
+    accs = [x for v in _returned_names(w) for x in order.loop_accumulations(w, v)]
     if accs and all(d * s == 1 for _, _, d, s in accs):
         ctx.ok("order.wrapper", sm, w, what="_wrap_noise: noise list in operation-list order")
     else:
@@ -402,14 +402,30 @@ def rule_noise_order(ctx: Ctx) -> None:
 # --------------------------------------------------------------------------- F5 order.noise-off
 
 
+def _returned_names(fn: ast.AST) -> List[str]:
+    out: List[str] = []
+    for r in ast.walk(fn):
+        if isinstance(r, ast.Return) and isinstance(r.value, ast.Name) and r.value.id not in out:
+            out.append(r.value.id)
+    return out
+
+
 def rule_noise_off(ctx: Ctx) -> None:
     repo = ctx.repo
     m = repo.module(CBASE)
     fn = repo.anchor(CBASE, "CompilerBase.compile")
     ctx.touch(m, fn)
-    assigns = [n for n in ast.walk(fn) if isinstance(n, ast.Assign) and norm(n.targets[0]) == "no_noise"]
+    # the flag is the bare name tested by the `if` whose true arm calls compile_one_gate (whatever it is called)
+    sim_names = {n.targets[0].id for n in ast.walk(fn) if isinstance(n, ast.Assign) and len(n.targets) == 1 and isinstance(n.targets[0], ast.Name)
+                 and any(isinstance(x, ast.Attribute) and x.attr in ("_noise_simulation", "noise_simulation") for x in ast.walk(n.value))}
+    cand = [n for n in ast.walk(fn) if isinstance(n, ast.If) and isinstance(n.test, ast.Name) and n.test.id in sim_names and n.orelse
+            and any(call_name(c) == "self.compile_one_gate" for st in n.body for c in calls_in(st))]
+    if len(cand) != 1:
+        raise AnalysisError("compile: the `if <noise-free flag>:` that selects the ideal-gate arm was not found")
+    FLAG = cand[0].test.id
+    assigns = [n for n in ast.walk(fn) if isinstance(n, ast.Assign) and norm(n.targets[0]) == FLAG]
     if not assigns:
-        raise AnalysisError("compile: `no_noise` flag not found")
+        raise AnalysisError("compile: noise-free flag is never assigned")
     assigns.sort(key=lambda n: n.lineno)
     first = assigns[0]
     if norm(first.value) == "not self._noise_simulation":
@@ -419,16 +435,14 @@ def rule_noise_off(ctx: Ctx) -> None:
                  func="CompilerBase.compile", construct=f"compile: no_noise = {norm(first.value)}")
     for a in assigns[1:]:
         v = a.value
-        mono = isinstance(v, ast.BoolOp) and isinstance(v.op, ast.Or) and any(norm(x) == "no_noise" for x in v.values)
+        mono = isinstance(v, ast.BoolOp) and isinstance(v.op, ast.Or) and any(norm(x) == FLAG for x in v.values)
         if mono:
             ctx.ok("order.noise-off", m, a, what="monotone update (… or no_noise)")
         else:
             ctx.fail("order.noise-off", m, a, f"`{short(a)}` can turn the flag off again: noise code becomes reachable although noise "
                                               f"simulation is switched off", func="CompilerBase.compile", construct=f"compile: {short(a, 80)}")
     # the `if no_noise:` arm contains only compile_one_gate
-    ifs = [n for n in ast.walk(fn) if isinstance(n, ast.If) and norm(n.test) == "no_noise"]
-    if len(ifs) != 1:
-        raise AnalysisError("compile: `if no_noise:` not found")
+    ifs = cand
     arm_calls = [call_name(c) for st in ifs[0].body for c in calls_in(st) if (call_name(c) or "").startswith("self.")]
     if arm_calls == ["self.compile_one_gate"]:
         ctx.ok("order.noise-off", m, ifs[0], what="noise-free arm applies only the ideal gate")
@@ -444,8 +458,9 @@ def rule_noise_off(ctx: Ctx) -> None:
         else:
             ctx.fail("order.noise-off", dm_, f, f"{q} has no NoNoise() default for gates absent from the noise map", func=q,
                      construct=f"{q}: no NoNoise default")
-    if any("isinstance(op.noise, nm.NoNoise)" in norm(a.value) for a in assigns) and \
-            any("isinstance(op.noise[0], nm.NoNoise)" in norm(a.value) for a in assigns):
+    import re as _re
+    if any(_re.search(r"isinstance\(\w+\.noise, nm\.NoNoise\)", norm(a.value)) for a in assigns) and \
+            any(_re.search(r"isinstance\(\w+\.noise\[0\], nm\.NoNoise\)", norm(a.value)) for a in assigns):
         ctx.ok_abstract("order.noise-off", "NoNoise on a gate makes the compile loop take the noise-free arm")
     else:
         ctx.fail("order.noise-off", m, fn, "a gate whose noise is NoNoise no longer selects the noise-free arm", func="CompilerBase.compile",
@@ -541,11 +556,23 @@ def rule_noise_factor(ctx: Ctx) -> None:
                      construct=f"PhotonLoss.apply: {short(b.test, 40) if b.test is not None else 'else'} factor {sorted(facs)}")
     # Depolarizing: one shared `factors` array, identity first, used by both backends
     fn = repo.anchor(NM, "DepolarizingNoise.apply")
-    fa = [n for n in fn.body if isinstance(n, ast.Assign) and norm(n.targets[0]) == "factors"]
+    # the shared weight array: the top-level assignment of `[...] + k * [...]`; probability / count names are read off their definitions
+    def _strip(v):
+        while isinstance(v, ast.Call) and call_name(v) in ("np.array", "np.asarray", "list") and v.args:
+            v = v.args[0]
+        return v
+    fa = [n for n in fn.body if isinstance(n, ast.Assign) and len(n.targets) == 1 and isinstance(n.targets[0], ast.Name)
+          and isinstance(_strip(n.value), ast.BinOp) and isinstance(_strip(n.value).op, ast.Add) and isinstance(_strip(n.value).left, ast.List)]
     if len(fa) != 1:
-        raise AnalysisError("DepolarizingNoise.apply: shared `factors` array not found")
-    txt = norm(fa[0].value)
-    if "[1 - depolarizing_prob] + " in txt and "depolarizing_prob / (n_kraus - 1)" in txt:
+        raise AnalysisError("DepolarizingNoise.apply: shared weight array `[1 - p] + (n - 1) * [p / (n - 1)]` not found")
+    FACT = fa[0].targets[0].id
+    pn = [n.targets[0].id for n in fn.body if isinstance(n, ast.Assign) and isinstance(n.targets[0], ast.Name) and "'Depolarizing probability'" in norm(n.value)]
+    kn = [n.targets[0].id for n in fn.body if isinstance(n, ast.Assign) and isinstance(n.targets[0], ast.Name) and norm(n.value).startswith("4 ** len(")]
+    if len(pn) != 1 or len(kn) != 1:
+        raise AnalysisError("DepolarizingNoise.apply: probability / Kraus-count definitions not found")
+    P_, K_ = pn[0], kn[0]
+    txt = norm(_strip(fa[0].value))
+    if txt in (f"[1 - {P_}] + ({K_} - 1) * [{P_} / ({K_} - 1)]", f"[1 - {P_}] + [{P_} / ({K_} - 1)] * ({K_} - 1)"):
         ctx.ok("sibling.noise-factor", m, fa[0], what="factors = [1-p] + (n-1)*[p/(n-1)]")
     else:
         ctx.fail("sibling.noise-factor", m, fa[0], f"depolarizing factors `{short(fa[0].value)}` are not [1-p] followed by equal shares p/(n-1)",
@@ -554,7 +581,7 @@ def rule_noise_factor(ctx: Ctx) -> None:
     for b in chain:
         if _raises_only(b.body):
             continue
-        uses = [x for st in b.body for x in ast.walk(st) if isinstance(x, ast.Subscript) and norm(x.value) == "factors"]
+        uses = [x for st in b.body for x in ast.walk(st) if isinstance(x, ast.Subscript) and norm(x.value) == FACT]
         lists = [x for st in b.body for x in ast.walk(st) if isinstance(x, ast.Assign) and isinstance(x.value, ast.List) and len(x.value.elts) == 4]
         first_id = all("identity" in norm(l.value.elts[0]) for l in lists) and bool(lists)
         if uses and first_id:
@@ -664,7 +691,20 @@ def rule_weight_preserve(ctx: Ctx) -> None:
         for st in [x for x in ast.walk(fn) if isinstance(x, ast.Assign) and isinstance(x.targets[0], ast.Subscript)
                    and norm(x.targets[0].value) == "self._mixture" and isinstance(x.value, ast.Tuple) and len(x.value.elts) == 2]:
             n += 1
-            if norm(st.value.elts[0]) == "p_i":
+            # names bound to the probability slot of the branch being rewritten
+            pnames = set()
+            for b_ in ast.walk(fn):
+                if isinstance(b_, ast.Assign) and isinstance(b_.targets[0], ast.Tuple) and len(b_.targets[0].elts) == 2 \
+                        and isinstance(b_.value, ast.Subscript) and norm(b_.value.value) == "self._mixture" \
+                        and norm(b_.value.slice) == norm(st.targets[0].slice):
+                    pnames.add(norm(b_.targets[0].elts[0]))
+                if isinstance(b_, ast.For) and any(st is x for x in ast.walk(b_)):
+                    t_ = b_.target
+                    if isinstance(b_.iter, ast.Call) and call_name(b_.iter) == "enumerate" and norm(b_.iter.args[0]) == "self._mixture" \
+                            and isinstance(t_, ast.Tuple) and len(t_.elts) == 2 and isinstance(t_.elts[1], ast.Tuple) \
+                            and norm(t_.elts[0]) == norm(st.targets[0].slice):
+                        pnames.add(norm(t_.elts[1].elts[0]))
+            if norm(st.value.elts[0]) in pnames:
                 ctx.ok("weight.preserve", sm, st, what=f"MixedStabilizer.{name} keeps p_i")
             else:
                 ctx.fail("weight.preserve", sm, st, f"MixedStabilizer.{name} stores `{norm(st.value.elts[0])}` as the branch probability", func=f"MixedStabilizer.{name}")
